@@ -180,6 +180,39 @@ func verifLemmaRoundTripEthernet(eth *Ethernet, b gopacket.SerializeBuffer, df g
 //@ func decodeName(data []byte, offset int, buffer *[]byte, level int) ([]byte, dnsNameLabels, int, error)
 //@   props C19 C01
 //@   decreases 256 - level
+//@   ensures result3 == nil ==> 0 < result2 && result2 <= len(data)
+//@   ensures len(*buffer) >= old(len(*buffer))
+//@   loop 0: invariant 0 <= offset && offset <= index && index < len(data)
+//@   loop 0: invariant start <= len(*buffer)
+
+// DNS record decoding (C19 / C01): every helper reads inside data because the offsets handed down are inside it.
+//@ func (rr *DNSResourceRecord) decodeRData(data []byte, offset int, buffer *[]byte) error
+//@   props C19 C01
+//@   requires 0 <= offset && offset <= len(data) && len(rr.Data) == len(data) - offset
+//@ func (rrsig *DNSRRSIG) decode(data []byte, offset int) (dnsNameLabels, error)
+//@   props C19 C01
+//@   requires 0 <= offset && offset <= len(data)
+//@ func (dnskey *DNSKEY) decode(data []byte, offset int) error
+//@   props C19 C01
+//@   requires 0 <= offset && offset <= len(data)
+//@ func decodeOPTs(data []byte, offset int) ([]DNSOPT, error)
+//@   props C19 C01
+//@   requires 0 <= offset && offset <= len(data)
+//@   loop 0: invariant offset <= i
+//@ func decodeSVCB(data []byte, offset int, buffer *[]byte) (DNSSVCB, dnsNameLabels, error)
+//@   props C19 C01
+//@   requires 0 <= offset && offset <= len(data)
+//@   loop 0: invariant 0 < ofs
+//@ func (d *DNS) DecodeFromBytes(data []byte, df gopacket.DecodeFeedback) error
+//@   props C19 C01
+//@   loop 0: invariant 0 <= i
+//@   loop 0: decreases d.QDCount - i
+//@   loop 1: invariant 0 <= i && len(d.Answers) == i
+//@   loop 1: decreases d.ANCount - i
+//@   loop 2: invariant 0 <= i && len(d.Authorities) == i
+//@   loop 2: decreases d.NSCount - i
+//@   loop 3: invariant 0 <= i && len(d.Additionals) == i
+//@   loop 3: decreases d.ARCount - i
 
 // The other two directly recursive decoders consume input on every recursive step.
 //@ func (t *TLS) decodeTLSRecords(data []byte, df gopacket.DecodeFeedback) error
